@@ -235,44 +235,57 @@ Section MeshLevel.
       valid_path m start t p = true /\
       forall p', valid_path m start t p' = true -> path_weight (mweight m ws) p <= path_weight (mweight m ws) p'.
 
-    Lemma sp_back st ord t : sp_final st ord -> (exists p', valid_path m start t p' = true) ->
-      exists p, back (S (Z.to_nat (nvert m))) (pred st) start t [] = Ok p /\ optimal_path t p
-                /\ zget (dist st) t = Some (path_weight (mweight m ws) p).
+    (* what shortest_path answers for one requested target: an optimal edge path if the pair is connected,
+       the empty list if it is not *)
+    Definition target_answer (t : Z) (p : list Z) : Prop :=
+      optimal_path t p \/ (p = [] /\ forall p', valid_path m start t p' = false).
+
+    Lemma sp_back st ord t : sp_final st ord ->
+      exists p, back (S (Z.to_nat (nvert m))) (pred st) start t [] = Ok p /\ target_answer t p.
     Proof.
-      intros F [p' Hp'].
-      destruct (valid_chain _ _ _ Hp') as [N1 [N2 [N3 [N4 N5]]]].
-      pose proof (chain_walkc (sp_nbrs m) (sp_weight m ws) start p' N1 N2 N4) as W. rewrite N3 in W.
-      destruct (final_reachable _ _ _ _ _ _ _ _ _ _ F W) as [d Hd].
-      destruct (back_correct Q content qinv (sp_nbrs m) (sp_weight m ws) (zrange (nvert m)) sp_closed start Sin
-                  st ord t d (S (Z.to_nat (nvert m))) F Hd) as [p [Hb [[G1 [G2 [G3 [G4 G5]]]] Hs]]].
-      { rewrite zrange_length. lia. }
-      assert (Vp : forall x, In x p -> is_vertex m x = true).
-      { intros x Hx. apply is_vertex_spec. destruct F as [I _].
-        destruct (i_fin _ _ _ _ _ _ _ _ _ I x (Hs x Hx)) as [dx Hdx].
-        eapply walkc_verts; [exact sp_closed | exact Sin | eapply (i_real _ _ _ _ _ _ _ _ _ I); eauto]. }
-      assert (Wp : path_weight (sp_weight m ws) p = path_weight (mweight m ws) p)
-        by (apply path_weight_ext; intros; apply sp_weight_eq).
-      exists p. split; [exact Hb|]. split; [split|].
-      - apply valid_path_spec. repeat split; auto.
-        eapply chainP_impl; [|exact G4]. intros a b Ha _ Hab. apply (adj_spec m a b AOK (Vp a Ha)). exact Hab.
-      - intros q Hq. destruct (valid_chain _ _ _ Hq) as [M1 [M2 [M3 [M4 M5]]]].
-        pose proof (chain_walkc (sp_nbrs m) (sp_weight m ws) start q M1 M2 M4) as Wq. rewrite M3 in Wq.
-        rewrite <- Wp, <- M5.
-        destruct (final_dist_optimal _ _ _ _ _ _ _ _ _ _ F G5) as [_ Opt]. apply Opt. exact Wq.
-      - rewrite <- Wp. exact G5.
+      intros F. destruct (zget (dist st) t) as [d|] eqn:Hd.
+      - destruct (back_correct Q content qinv (sp_nbrs m) (sp_weight m ws) (zrange (nvert m)) sp_closed start Sin
+                    st ord t d (S (Z.to_nat (nvert m))) F Hd) as [p [Hb [[G1 [G2 [G3 [G4 G5]]]] Hs]]].
+        { rewrite zrange_length. lia. }
+        assert (Vp : forall x, In x p -> is_vertex m x = true).
+        { intros x Hx. apply is_vertex_spec. destruct F as [I _].
+          destruct (i_fin _ _ _ _ _ _ _ _ _ I x (Hs x Hx)) as [dx Hdx].
+          eapply walkc_verts; [exact sp_closed | exact Sin | eapply (i_real _ _ _ _ _ _ _ _ _ I); eauto]. }
+        assert (Wp : path_weight (sp_weight m ws) p = path_weight (mweight m ws) p)
+          by (apply path_weight_ext; intros; apply sp_weight_eq).
+        exists p. split; [exact Hb|]. left. split.
+        + apply valid_path_spec. repeat split; auto.
+          eapply chainP_impl; [|exact G4]. intros a b Ha _ Hab. apply (adj_spec m a b AOK (Vp a Ha)). exact Hab.
+        + intros q Hq. destruct (valid_chain _ _ _ Hq) as [M1 [M2 [M3 [M4 M5]]]].
+          pose proof (chain_walkc (sp_nbrs m) (sp_weight m ws) start q M1 M2 M4) as Wq. rewrite M3 in Wq.
+          rewrite <- Wp, <- M5.
+          destruct (final_dist_optimal _ _ _ _ _ _ _ _ _ _ F G5) as [_ Opt]. apply Opt. exact Wq.
+      - exists []. split.
+        + apply (final_unreached Q content qinv (sp_nbrs m) (sp_weight m ws) start st ord t _ F Hd). lia.
+        + right. split; [reflexivity|]. intros p'. destruct (valid_path m start t p') eqn:V; [|reflexivity].
+          destruct (valid_chain _ _ _ V) as [N1 [N2 [N3 [N4 N5]]]].
+          pose proof (chain_walkc (sp_nbrs m) (sp_weight m ws) start p' N1 N2 N4) as W. rewrite N3 in W.
+          destruct (final_reachable _ _ _ _ _ _ _ _ _ _ F W) as [d Hd']. congruence.
     Qed.
 
-    (* shortest_path: every requested target connected to the start gets an optimal edge path *)
+    (* shortest_path: the call succeeds for every collection of vertices; every requested target connected to the
+       start gets an optimal edge path, every other one the empty list *)
     Theorem shortest_path_correct targets :
-      (forall t, In t targets -> exists p', valid_path m start t p' = true) ->
+      forallb (is_vertex m) targets = true ->
       exists l, shortest_path Q qempty qpush qpop m ws start targets = Ok l
-                /\ Forall2 (fun t tp => fst tp = t /\ optimal_path t (snd tp)) (dedup targets) l.
+                /\ Forall2 (fun t tp => fst tp = t /\ target_answer t (snd tp)) (dedup targets) l.
     Proof.
-      intros Hreach. unfold shortest_path.
+      intros HT. unfold shortest_path.
       destruct sp_run_ok as [st [ord [Hrun F]]]. rewrite Hrun. cbn [rbind].
       apply rmap_ok. intros t Ht. apply (proj1 (dedup_In _ _)) in Ht.
-      destruct (sp_back st ord t F (Hreach t Ht)) as [p [Hb [Ho _]]].
-      exists (t, p). cbv beta. rewrite Hb. simpl. auto.
+      rewrite forallb_forall in HT. rewrite (HT t Ht).
+      destruct (sp_back st ord t F) as [p [Hb Ho]].
+      exists (t, p). rewrite Hb. simpl. auto.
     Qed.
+
+    (* a single target may be given as a Python int or as a numpy integer *)
+    Lemma single_forms k t : shortest_path1 Q qempty qpush qpop m ws start k t
+                             = shortest_path Q qempty qpush qpop m ws start [t].
+    Proof. unfold shortest_path1. destruct k; reflexivity. Qed.
   End Start.
 End MeshLevel.
